@@ -45,6 +45,10 @@ def templates(rng, g):
     out.append(("map-unused", f"ㄱ (({{X}} {{X}} ㅁㄹㅎㄷ) (ㄹ ㅎ) ㅁㄷㅎㄷ) ㅎㄴ"))
     out.append(("equals-after-diff", f"ㄱ ㄴ {{X}} ㄴㅎㄹ"))
     out.append(("try-not-raised", f"{gi()} ({{X}} ㅎ) ㅅㄷㅎㄷ"))
+    # the handler *expression itself* is unneeded when nothing is raised (seeded change S03g evaluated it up front)
+    out.append(("try-handler-expr-unneeded", f"{gi()} {{X}} ㅅㄷㅎㄷ"))
+    out.append(("try-handler-arg-unneeded", f"{gi()} {{X}} (ㄱ ㅇㄱ ㄴ ㅇㄱ ㅅㄷㅎㄷ ㅎ) ㅎㄷ"))
+    out.append(("try-handler-list-unneeded", f"({gi()} ㅁㄹㅎㄴ) {{X}} ㅅㄷㅎㄷ"))
     out.append(("fold-init-unused", f"(ㄴ ㅁㄹㅎㄴ) {{X}} (ㄴㅇㄱ ㅎ) ㅅㄹㅎㄹ".replace("(ㄴㅇㄱ ㅎ)", "(ㄱㅇㄱ ㅎ)")))
     # arguments handed to a user function *by a built-in* (fold / filter / pipe / spread / collect) that the
     # function never uses, and list elements those built-ins pass along without inspecting them
@@ -97,7 +101,7 @@ SPEC = {
     'lean': ['C03'],
     'cases': cases,
     'stream': 'C03 marked-position stream',
-    'rule': '44 templates with a marked non-strict position (unused argument, arguments and list elements passed on by fold / filter / pipe (also results of intermediate pipe stages) / spread / collect / map to functions that ignore them, exception contents built / thrown / caught but not inspected, unselected Boolean branch, operands after the '
+    'rule': '47 templates with a marked non-strict position (unused argument, arguments and list elements passed on by fold / filter / pipe (also results of intermediate pipe stages) / spread / collect / map to functions that ignore them, exception contents built / thrown / caught but not inspected, unselected Boolean branch, operands after the '
             'deciding one of Boolean ㄱ / ㄷ, uninspected list elements / dictionary values, map over unused elements, ㄴ after '
             'the first difference, handler of a ㅅㄷ that does not raise, captured but unused argument) × random surrounding '
             'sub-expressions × 8 payloads (user exception, type error, non-terminating recursion bounded only by the '
